@@ -15,6 +15,10 @@ exit with status 3.
   python3 tools/gen_peak.py --ties     additionally compile coq/proofs/PeakTie.v block by block (a block = the lemma
                                        of one method, between `(* BEGIN TIE m (needs: ...) *)` and `(* END TIE m *)`)
                                        and print `tie <m>: OK | FAILED | SKIPPED` for every method
+  python3 tools/gen_peak.py --ties --field   the same in FIELD MODE (tools/tie_modes.py, coq/model/TieTac.v): the ties
+                                       are compiled with `OF : OField N` in context and `leaf := leaf_field`, so they hold
+                                       when the source differs from the model by ordered-field laws only
+  --only=a,b                           (with --ties) only the named methods
 
 TRANSLATION
   struct TheoreticalIsotopicPattern -> Peak.tip (fields peaks, origin), struct Peak -> Peak.peak (mz, intensity ~ inten)
@@ -1291,52 +1295,13 @@ def translate():
 
 
 # ------------------------------------------------------------------ which ties of PeakTie.v still hold
-def check_ties(world):
-    """compile PeakTie.v block by block: common text + the block of one method + the blocks it needs"""
-    text = open(TIE, encoding="utf-8").read()
-    blocks, common, pos = {}, [], 0
-    for m in re.finditer(r"\(\* BEGIN TIE (\w+)(?: \(needs: ([\w ]*)\))? \*\)\n(.*?)\(\* END TIE \1 \*\)\n", text, re.S):
-        common.append(text[pos:m.start()])
-        common.append("@@%s@@" % m.group(1))
-        blocks[m.group(1)] = ((m.group(2) or "").split(), m.group(3))
-        pos = m.end()
-    common.append(text[pos:])
-
-    def closure(n, acc):
-        for d in blocks[n][0]:
-            if d in blocks and d not in acc:
-                closure(d, acc)
-        if n not in acc:
-            acc.append(n)
-        return acc
-    run = lambda args, cwd: subprocess.run(args, cwd=cwd, stdout=subprocess.PIPE, stderr=subprocess.STDOUT, universal_newlines=True)
-    for f in ("model/ImpL.v", "gen/PeakGen.v"):
-        r = run(["coqc", "-Q", ".", "CE", "-w", "-notation-overridden", f], COQ)
-        if r.returncode != 0:
-            print("tie check: %s does not compile\n%s" % (f, r.stdout))
-            return 1
-    bad = 0
-    with tempfile.TemporaryDirectory() as tmp:
-        for n in WANTED:
-            if n in world.skipped:
-                print("tie %s: SKIPPED (%s)" % (n, world.skipped[n]))
-                bad += 1
-                continue
-            if n not in blocks:
-                print("tie %s: no block in PeakTie.v" % n)
-                bad += 1
-                continue
-            keep = closure(n, [])
-            body = "".join(c if not c.startswith("@@") else (blocks[c[2:-2]][1] if c[2:-2] in keep else "") for c in common)
-            path = os.path.join(tmp, "PeakTie_%s.v" % n)
-            open(path, "w").write(body)
-            r = run(["coqc", "-Q", COQ, "CE", "-w", "-notation-overridden", path], tmp)
-            if r.returncode == 0:
-                print("tie %s: OK" % n)
-            else:
-                bad += 1
-                msg = [l for l in r.stdout.splitlines() if l.strip()]
-                print("tie %s: FAILED (%s)" % (n, " | ".join(msg[-3:])[:300]))
+def check_ties(world, field=False, only=None):
+    """compile PeakTie.v block by block: common text + the block of one method + the blocks it needs
+    (field=True: in field mode, see tools/tie_modes.py)"""
+    import tie_modes
+    if not tie_modes.compile_deps(COQ, ["model/TieTac.v", "model/ImpL.v", "gen/PeakGen.v"]):
+        return 1
+    bad = tie_modes.check_blocks(COQ, TIE, WANTED, world.skipped, field=field, only=only, stem="PeakTie")
     return 1 if bad else 0
 
 
@@ -1355,8 +1320,10 @@ def main():
     print("gen_peak: %d methods translated (%s), %d skipped%s" % (
         len(world.emitted), ", ".join(world.emitted), len([n for n in WANTED if n in world.skipped]),
         "" if old == text else " [rewritten]"))
-    if "--ties" in sys.argv[1:]:
-        return check_ties(world)
+    import tie_modes
+    ties, field, only = tie_modes.flags(sys.argv[1:])
+    if ties:
+        return check_ties(world, field, only)
     return 0
 
 
